@@ -197,6 +197,37 @@ def run(ck):
         ck.ob("DEFUSE", g.path, "charges-accumulated-energy", ok, "account_energy(self.energy)", g.loc())
         okg, d = rules.guarded_site(g, ac[0][0], [("field", "energy")], [("lit", 0)], "Le") if ac else (False, "")
         ck.ob("CMP", g.path, "skip-only-zero-charge", okg or any(x[1] in ("Le", "Eq") for x in []) or okg, d or "the charge is skipped only when the accumulated energy is 0", g.loc())
+        # must-pass-through: every accepting return is reached either through the charge or through the edge taken when the
+        # accumulated energy is not positive (no other way around the charge, e.g. "nothing pending")
+        zero_edges = set()
+        for cx in rules.comparisons(g):
+            oa, ob = g.origins(cx["a"]), g.origins(cx["b"])
+            br = rules.cmp_branches(g, cx)
+            if br is None:
+                continue
+            sb, tt, ft = br
+            if ("field", "energy") in oa and ("lit", 0) in ob:
+                if cx["op"] in ("Gt", "Ne"):
+                    zero_edges.add((sb, ft))
+                elif cx["op"] in ("Eq", "Le"):
+                    zero_edges.add((sb, tt))
+            if ("field", "energy") in ob and ("lit", 0) in oa and cx["op"] in ("Lt", "Ne"):
+                zero_edges.add((sb, ft))
+        acc, _rej = g.accept_points()
+        charge_bbs = set(b for (b, _) in ac)
+        seen, work = set(), [0]
+        while work:
+            x = work.pop()
+            if x in seen or x in charge_bbs:
+                continue
+            seen.add(x)
+            for y in g.succ(x):
+                if (x, y) not in zero_edges:
+                    work.append(y)
+        leak = sorted(set(acc) & seen)
+        ck.ob("DOM", g.path, "no-way-around-the-charge", bool(ac) and bool(zero_edges) and not leak,
+              "every successful return passes the TickEnergy emission unless the accumulated energy is zero" if not leak else
+              "a successful return (bb%s) is reachable without emitting the accumulated charge and without the energy being zero" % leak, g.loc())
         resets = [bi for bi in g.reachable() for s in g.stmts(bi) if "lhs" in s and any(p.endswith(":energy") for p in s["lhs"][1]) and s["rv"]["k"] == "use" and const_int(op_const(s["rv"]["a"]) or {}) == 0]
         ck.ob("DOM", g.path, "reset-after-charge", bool(resets) and bool(ac) and all(g.dominates(ac[0][0], r) for r in resets), "energy := 0 only after the charge was emitted", g.loc())
         ck.ob("DOM", g.path, "pending-moved", len(ap) == 1 and ("field", "pending_instructions") in g.origins(ap[0][1]["args"][1], deep=True) and ("field", "new_seq") in g.origins(ap[0][1]["args"][0], deep=True),
